@@ -9,7 +9,10 @@ SCAL = [0, 1, 2, 7, -3, True, False, "x", "y", "z", "", "1", "true", 0.5, 1.5, 2
         # beyond 32 bits: the YAML reader hands these over as another Go type than the JSON and TOML readers
         2 ** 31, 2 ** 32, -2 ** 31 - 1, 4294967296000, 2 ** 53 + 1, 2 ** 62,
         # neighbours beyond 2^53: equal as float64, different as integers
-        2 ** 53, 2 ** 53 + 2, 2 ** 63 - 1, 2 ** 63 - 2, -2 ** 63, -2 ** 63 + 1]
+        2 ** 53, 2 ** 53 + 2, 2 ** 63 - 1, 2 ** 63 - 2, -2 ** 63, -2 ** 63 + 1,
+        # strings ending in one, two, three newlines (YAML block scalars with clip / keep chomping: the trailing blank lines ARE the value,
+        # also at the very end of the emitted text)
+        "x\n", "x\n\n", "l1\nl2\n\n\n", "two\n\nparas\n\n"]
 FMTS = ["yaml", "json", "toml"]
 
 
